@@ -86,7 +86,7 @@ def rand_dir(rng):
         else:
             d.fns.append(0x1000 + 0x10 * rng.randrange(0, 0x20))
     # names
-    mode = rng.choice(["sorted", "sorted", "sorted", "unsorted", "dups", "dups_unsorted"])
+    mode = rng.choice(["sorted", "sorted", "unsorted", "unsorted", "dups", "dups_unsorted"])
     m = rng.choice([0, 1, max(0, n - 2), n, n, n + 1, min(n, 3)])
     pool = set()
     while len(pool) < m:
@@ -347,7 +347,7 @@ def case_for(rng, b, frac=1.0):
 def gen_exports(rng, tier):
     """random directories, each with at most two corruptions"""
     cases = []
-    nimg = 70 if tier == "quick" else 2500
+    nimg = 250 if tier == "quick" else 4000
     for i in range(nimg):
         d = rand_dir(rng)
         mut = {}
